@@ -182,6 +182,33 @@ def run(ctx):
             return (e[0], l_, r_)
         return e
 
+    def members(e, inside):
+        """Is an element a member of the set expression, given for each symbolic leaf whether it is in that leaf?  (None: not decided)"""
+        if e in inside:
+            return inside[e]
+        if not isinstance(e, tuple) or not e:
+            return None
+        if e[:1] == ("set",) and len(e) == 2:
+            return members(e[1], inside)
+        if e == ("empty",) or e == ("tuple",):
+            return False
+        if e[:1] == ("copy",) and len(e) == 2:
+            return members(e[1], inside)
+        if e[:1] in (("union",), ("minus",), ("meet",)) and len(e) == 3:
+            l_, r_ = members(e[1], inside), members(e[2], inside)
+            if l_ is None or r_ is None:
+                return None
+            return (l_ or r_) if e[0] == "union" else (l_ and not r_) if e[0] == "minus" else (l_ and r_)
+        return None
+
+    def same_set(e, leaves, want):
+        """The set expression denotes want(...) for every way an element can lie in the symbolic leaves."""
+        import itertools
+        for bits in itertools.product((False, True), repeat=len(leaves)):
+            if members(e, dict(zip(leaves, bits))) is not want(*bits):
+                return False
+        return True
+
     def tc_run(name, argv, state):
         f = tcx.own_method(name)
         if not isinstance(f, FUNC_TYPES):
@@ -198,19 +225,19 @@ def run(ctx):
     ctx.check("R-COPY-NOT-ALIAS", "TagContext.__init__ starts from a fresh set", init, ok, "a new context shares its tag set with another object", examined=len(res),
               construct=f"{TAGS_MOD}:TagContext.__init__::fresh")
     got = {repr(canon(r.state.get("self._tags", None))) for r in normal}
-    ctx.check("R-COPY-NOT-ALIAS", "TagContext.__init__ copies the parent's current tags", init, got == {repr(PTAGS)},
+    ctx.check("R-COPY-NOT-ALIAS", "TagContext.__init__ copies the parent's current tags", init, bool(normal) and all(same_set(r.state.get("self._tags", None), [PTAGS], lambda p_: p_) for r in normal),
               f"a child context starts with {sorted(got)} instead of a copy of parent.get_current_tags() (tags current before the test would be invisible inside it)",
               examined=len(res), construct=f"{TAGS_MOD}:TagContext.__init__::copy-parent")
     ok = bool(normal) and all(r.state.get("self.parent", None) == PARENT for r in normal)
     _, res0 = tc_run("__init__", {"parent": NONE}, [])
     normal0 = [r for r in res0 if r.kind == "val"]
-    ok0 = bool(normal0) and all(r.state.get("self.parent", None) == NONE and fresh_set(r.state.get("self._tags", None)) and canon(r.state.get("self._tags")) == ("empty",) for r in normal0)
+    ok0 = bool(normal0) and all(r.state.get("self.parent", None) == NONE and fresh_set(r.state.get("self._tags", None)) and same_set(r.state.get("self._tags"), [], lambda: False) for r in normal0)
     ctx.check("R-COPY-NOT-ALIAS", "TagContext remembers its parent; a root context starts empty", init, ok and ok0,
               "self.parent is not the parent context, or a context without parent does not start with a fresh empty set", examined=len(res) + len(res0),
               construct=f"{TAGS_MOD}:TagContext.__init__::parent")
     g, res = tc_run("get_current_tags", {}, [("self._tags", ("set", OWN))])
     normal = [r for r in res if r.kind == "val"]
-    ok = bool(normal) and all(fresh_set(r.value) and r.value != ("set", OWN) and canon(r.value) == OWN and r.state.get("self._tags") == ("set", OWN) for r in normal)
+    ok = bool(normal) and all(fresh_set(r.value) and r.value != ("set", OWN) and same_set(r.value, [OWN], lambda o_: o_) and r.state.get("self._tags") == ("set", OWN) for r in normal)
     ctx.check("R-COPY-NOT-ALIAS", "get_current_tags returns a fresh set with the context's tags", g, ok,
               "get_current_tags hands out the context's own set (callers could change the context's tags) or not the current tags", examined=len(res),
               construct=f"{TAGS_MOD}:TagContext.get_current_tags::fresh")
@@ -219,7 +246,9 @@ def run(ctx):
     want = ("minus", ("union", OWN, NEWT), GONET)
     got = {repr(canon(r.state.get("self._tags", None))) for r in normal}
     rets = {repr(canon(r.value)) for r in normal}
-    ok = bool(normal) and got == {repr(want)} and rets == {repr(want)} and all(fresh_set(r.value) and r.value != r.state.get("self._tags") for r in normal)
+    expected = lambda o_, n_, g_: (o_ or n_) and not g_
+    ok = bool(normal) and all(same_set(r.state.get("self._tags", None), [OWN, NEWT, GONET], expected) and same_set(r.value, [OWN, NEWT, GONET], expected)
+                              and fresh_set(r.value) and r.value != r.state.get("self._tags") for r in normal)
     ctx.check("R-COPY-NOT-ALIAS", "change_tags adds the new tags, then removes the gone tags, on its own set, and returns a copy of the result", ch_, ok,
               f"after change_tags the context holds {sorted(got)} and returns {sorted(rets)}; expected (own | new_tags) - gone_tags, returned as a fresh set", examined=len(res),
               construct=f"{TAGS_MOD}:TagContext.change_tags::ops")
